@@ -5,6 +5,20 @@ ROOT = os.path.dirname(os.path.dirname(os.path.dirname(os.path.abspath(__file__)
 SPEC = os.path.join(ROOT, "spec")
 OUT = os.path.join(ROOT, "out")
 HARNESS = os.path.join(ROOT, "harness")
+# The code under test.  Always /repo for the registered checks; tools/seedtest.sh points VERIF_REPO at a scratch
+# worktree with a seeded change, so that /repo itself is never modified while other checks may be building from it.
+REPO = os.environ.get("VERIF_REPO", "/repo")
+
+
+def _alt_harness():
+    """a copy of the harness whose path dependencies point at VERIF_REPO (own target directory)"""
+    d = os.path.join(REPO, ".verif-harness")
+    os.makedirs(d, exist_ok=True)
+    subprocess.run(["rsync", "-a", "--delete", "--exclude", "target", HARNESS + "/", d + "/"], check=True)
+    ct = os.path.join(d, "Cargo.toml")
+    txt = open(ct).read().replace('"/repo/', '"%s/' % REPO)
+    open(ct, "w").write(txt)
+    return d
 EVID = os.path.join(ROOT, "evidence")
 REPLAY = os.path.join(OUT, "replay")
 KNOWN = os.path.join(ROOT, "known_findings.json")
@@ -343,13 +357,14 @@ def build_harness(features=(), profile="release"):
     e = dict(os.environ)
     e["CARGO_NET_OFFLINE"] = "true"
     t0 = time.time()
-    p = subprocess.run(cmd, cwd=HARNESS, env=e, stdout=subprocess.PIPE, stderr=subprocess.STDOUT, text=True)
+    hdir = HARNESS if REPO == "/repo" else _alt_harness()
+    p = subprocess.run(cmd, cwd=hdir, env=e, stdout=subprocess.PIPE, stderr=subprocess.STDOUT, text=True)
     if p.returncode != 0:
         raise ToolError("harness build failed:\n" + p.stdout[-4000:])
-    src = os.path.join(HARNESS, "target", "release" if profile == "release" else "debug", "verif-harness")
+    src = os.path.join(hdir, "target", "release" if profile == "release" else "debug", "verif-harness")
     # keep one binary per feature set (cargo overwrites the same path)
     tag = ("-".join(features) or "default") + "-" + profile
-    dst = os.path.join(HARNESS, "target", "verif-harness-" + tag)
+    dst = os.path.join(hdir, "target", "verif-harness-" + tag)
     # atomic replace: a check that is still running the previous binary keeps its inode
     tmp = dst + ".%d.tmp" % os.getpid()
     shutil.copy2(src, tmp)
